@@ -1,8 +1,244 @@
-import Magog.Model.Eval
-import Magog.Model.Time
+import Magog.Lemmas.CountPerft
+import Magog.Lemmas.CountKing
+import Magog.Model.Start
 
-/-! Property C06 — theorems (see DESIGN §5). -/
+/-! Property C06 — the four hand-copied move loops of the engine (full generator
+    `generateMoves`, tactical generator `generateTacticalMoves`, `countMoves`, `countTacticalMoves`) and
+    the two perft drivers agree on every position on which they run without panic.
+
+    The side conditions are the named predicates of `Magog/Lemmas/Count.lean`; each is justified there.
+    Summary of which theorem needs what:
+
+    * `tactical_is_filter`      : `CellsOk`
+    * `countTactical_eq_length` : `BoardSize`, `EpRankOk`, `PawnsOk`, `CaptureOk`, `KingStepSafe`
+    * `countMoves_eq_length`    : the same plus `CastleSafe`
+    * `promo_legal_uniform`     : `CaptureOk`, mover is a pawn, destination ≠ en-passant square
+
+    `KingStepSafe` and `CastleSafe` are the two places where the generator filters a move twice (an
+    attack pre-test, then `isLegal`) and the counter once. `KingStepSafe` is proved here from the
+    structural condition `KingsOk` (`kingStepSafe_of_kingsOk`); `CastleSafe` is a chess-geometry fact
+    about attack detection that is kept as a hypothesis. The others are data-structure
+    well-formedness. `CellsOk` and `KingStepSafe` are shown to be necessary by counterexamples
+    (`c06BadCell`, `c06AdjKings`). Witnesses for the examples: `Count.c06Witness` (1.e4 e5 2.Nf3 Nc6
+    3.Bc4 Bc5 4.a4 a6 5.a5 b5: en-passant, captures and castling all available),
+    `Count.c06PromoWitness` (a pawn on a7 that can push and capture to promote), and
+    `Model.startPosition`. -/
 
 namespace Magog.Props.C06
+open Magog Magog.Model Magog.Count
+
+/-! ### 1. the tactical generator is the tactical-flagged sub-list of the full generator -/
+
+/-- The tactical generator's list is exactly (same order, same multiplicity) the sub-list of the
+    full legal move list that is flagged tactical (captures incl. en passant, all promotions).
+    Side condition `CellsOk p` (every board cell has a colour bit iff it has a piece kind, never both
+    colour bits): the two generators classify a target as a capture by different bit tests
+    (`cell &&& Colorless != 0` after `cell &&& own == 0`, against `cell &&& enemy != 0`), which
+    coincide only on well-formed cells. -/
+theorem tactical_is_filter {kt : Killers} {p : Position} {ms ts : List RMove} (hcells : CellsOk p)
+    (hf : generateMoves kt p = .ok ms) (ht : generateTacticalMoves p = .ok ts) :
+    ts.map (·.mov) = (ms.filter (·.tactical)).map (·.mov) :=
+  generate_tactical_rel hcells hf ht
+
+set_option maxRecDepth 100000 in
+example : CellsOk startPosition ∧ CellsOk c06Witness := by decide +kernel
+
+set_option maxRecDepth 100000 in
+/-- both generators run on the witness; 35 legal moves, the tactical ones are a5xb6 e.p., Bxf7+, Bxb5, Nxe5 -/
+example :
+    okVal ((generateMoves Killers.empty c06Witness).map (·.length)) = some 35 ∧
+    okVal ((generateTacticalMoves c06Witness).map (·.map (·.mov))) =
+      some [⟨Gen.A5, Gen.B6, 0, InvalidSq⟩, ⟨Gen.C4, Gen.F7, 0, InvalidSq⟩, ⟨Gen.C4, Gen.B5, 0, InvalidSq⟩,
+            ⟨Gen.F3, Gen.E5, 0, InvalidSq⟩] := by decide +kernel
+
+set_option maxRecDepth 100000 in
+example : okVal ((generateMoves Killers.empty startPosition).map (·.length)) = some 20 ∧
+    okVal ((generateTacticalMoves startPosition).map (·.length)) = some 0 := by decide +kernel
+
+set_option maxRecDepth 100000 in
+/-- `CellsOk` cannot be dropped: on `c06BadCell` (a kind-without-colour cell) both generators run, the
+    full list has one tactical-flagged move, the tactical list is empty. -/
+example : ¬ CellsOk c06BadCell ∧
+    okVal ((generateTacticalMoves c06BadCell).map (·.map (·.mov))) = some [] ∧
+    okVal ((generateMoves Killers.empty c06BadCell).map (fun ms => (ms.filter (·.tactical)).map (·.mov))) =
+      some [⟨Gen.B1, Gen.A3, 0, InvalidSq⟩] := by decide +kernel
+
+/-! ### key lemma: the legality verdict of a pawn move does not depend on the promotion piece -/
+
+/-- The king-safety verdict of `makeMove` for a pawn move does not depend on `m.promo` (the counters
+    test legality once with `promo = 0` and multiply by 4; the generators test each promotion move).
+    Side conditions: the mover on `f` is a pawn of the side to move; the destination is not the
+    en-passant square (otherwise only the `promo = 0` variant removes the passed pawn); `CaptureOk p`
+    (enemy piece list duplicate-free and consistent with the board, so that after the capture
+    bookkeeping the destination is not an attacker square); the promotion code carries no black
+    colour bit (true of Queen/Rook/Bishop/Knight; only matters if the destination is the enemy
+    king's square, whose cell selects the pawn-attack table). -/
+theorem promo_legal_uniform {p : Position} {f t k e : Nat} {q0 q1 : Position} {b0 b1 : Bool}
+    (hcap : CaptureOk p) (hpawn : p.board[f]? = some (Pawn ||| p.ctx.curBit)) (hep : t ≠ p.ep)
+    (hkb : k &&& BlackBit = 0)
+    (h0 : makeMove p ⟨f, t, 0, e⟩ = .ok (q0, b0)) (h1 : makeMove p ⟨f, t, k, e⟩ = .ok (q1, b1)) :
+    b0 = b1 :=
+  Count.promo_legal_uniform hcap hpawn hep hkb h0 h1
+
+set_option maxRecDepth 100000 in
+/-- the hypotheses hold for the a7 pawn of `c06PromoWitness` capturing on b8 with a queen promotion;
+    both `makeMove`s run (verdict: legal) -/
+example : CaptureOk c06PromoWitness ∧
+    c06PromoWitness.board[Gen.A7]? = some (Pawn ||| c06PromoWitness.ctx.curBit) ∧
+    Gen.B8 ≠ c06PromoWitness.ep ∧ Queen &&& BlackBit = 0 ∧
+    okVal ((makeMove c06PromoWitness ⟨Gen.A7, Gen.B8, 0, InvalidSq⟩).map (·.2)) = some true ∧
+    okVal ((makeMove c06PromoWitness ⟨Gen.A7, Gen.B8, Queen, InvalidSq⟩).map (·.2)) = some true := by
+  decide +kernel
+
+/-! ### the generators' king-step pre-test never removes a legal move -/
+
+/-- `KingStepSafe` (side condition of the counting theorems) follows from the structural condition
+    `KingsOk`: the mover's king stands on its recorded square, that square is not in the enemy piece
+    list, and the enemy king is neither on it nor adjacent to it. -/
+theorem kingStepSafe_of_kingsOk {p : Position} (h : KingsOk p) : KingStepSafe p :=
+  Count.kingStepSafe_of_kingsOk h
+
+set_option maxRecDepth 100000 in
+example : KingsOk startPosition ∧ KingsOk c06Witness ∧ KingsOk c06PromoWitness := by decide +kernel
+
+/-! ### 2. `countTacticalMoves` counts the tactical generator's list -/
+
+theorem countTactical_eq_length {p : Position} {n : Nat} {ts : List RMove} (hsz : BoardSize p)
+    (hep : EpRankOk p) (hpw : PawnsOk p) (hcap : CaptureOk p) (hks : KingStepSafe p)
+    (hn : countTacticalMoves p = .ok n) (ht : generateTacticalMoves p = .ok ts) : n = ts.length :=
+  countTactical_length hsz hep hpw hcap hks hn ht
+
+set_option maxRecDepth 100000 in
+theorem c06Witness_tcountOk : TCountOk c06Witness where
+  size := by decide +kernel
+  ep := by decide +kernel
+  pawns := by decide +kernel
+  capture := by decide +kernel
+  king := KingStepSafe.of_check (by decide +kernel)
+
+set_option maxRecDepth 100000 in
+example : BoardSize startPosition ∧ EpRankOk startPosition ∧ PawnsOk startPosition ∧
+    CaptureOk startPosition := by decide +kernel
+
+set_option maxRecDepth 100000 in
+example : KingStepSafe startPosition := KingStepSafe.of_check (by decide +kernel)
+
+set_option maxRecDepth 100000 in
+/-- the en-passant square of the witness really is b6 (so `EpRankOk` is used in its non-trivial branch),
+    and the counter runs and returns 4 -/
+example : c06Witness.ep = Gen.B6 ∧ okVal (countTacticalMoves c06Witness) = some 4 := by decide +kernel
+
+set_option maxRecDepth 100000 in
+/-- the promotion witness: all side conditions hold, the counter says 8, the tactical generator
+    lists 8 moves (2 destinations × 4 promotion pieces) -/
+example : BoardSize c06PromoWitness ∧ EpRankOk c06PromoWitness ∧ PawnsOk c06PromoWitness ∧
+    CaptureOk c06PromoWitness ∧ KingsOk c06PromoWitness ∧
+    okVal (countTacticalMoves c06PromoWitness) = some 8 ∧
+    okVal ((generateTacticalMoves c06PromoWitness).map (·.length)) = some 8 := by decide +kernel
+
+set_option maxRecDepth 100000 in
+/-- `KingStepSafe` cannot be dropped: `c06AdjKings` satisfies every other side condition (and
+    `CellsOk`), all four loops run, both counters say 1 and both generators produce no move. -/
+example : BoardSize c06AdjKings ∧ EpRankOk c06AdjKings ∧ PawnsOk c06AdjKings ∧ CaptureOk c06AdjKings ∧
+    CellsOk c06AdjKings ∧ ¬ KingsOk c06AdjKings ∧
+    okVal (countTacticalMoves c06AdjKings) = some 1 ∧ okVal (countMoves c06AdjKings) = some 1 ∧
+    okVal ((generateTacticalMoves c06AdjKings).map (·.length)) = some 0 ∧
+    okVal ((generateMoves Killers.empty c06AdjKings).map (·.length)) = some 0 := by decide +kernel
+
+/-! ### 3. `countMoves` counts the full generator's list -/
+
+theorem countMoves_eq_length {kt : Killers} {p : Position} {n : Nat} {ms : List RMove} (hsz : BoardSize p)
+    (hep : EpRankOk p) (hpw : PawnsOk p) (hcap : CaptureOk p) (hks : KingStepSafe p) (hcs : CastleSafe p)
+    (hf : generateMoves kt p = .ok ms) (hn : countMoves p = .ok n) : n = ms.length :=
+  countMoves_length hsz hep hpw hcap hks hcs hf hn
+
+set_option maxRecDepth 100000 in
+theorem c06Witness_countOk : CountOk c06Witness where
+  toTCountOk := c06Witness_tcountOk
+  castle := CastleSafe.of_check (by decide +kernel)
+
+set_option maxRecDepth 100000 in
+/-- on the witness the kingside path test passes and the right is set, so `CastleSafe` is used
+    non-vacuously; the counter runs and returns 35 -/
+example : c06Witness.ctx.kOk = true ∧ okVal (castleKOk c06Witness c06Witness.ctx) = some true ∧
+    okVal (countMoves c06Witness) = some 35 := by decide +kernel
+
+set_option maxRecDepth 100000 in
+/-- the promotion witness: 13 = 13 -/
+example : CastleSafe c06PromoWitness ∧ okVal (countMoves c06PromoWitness) = some 13 ∧
+    okVal ((generateMoves Killers.empty c06PromoWitness).map (·.length)) = some 13 :=
+  ⟨CastleSafe.of_check (by decide +kernel), by decide +kernel, by decide +kernel⟩
+
+set_option maxRecDepth 100000 in
+example : CastleSafe startPosition ∧ okVal (countMoves startPosition) = some 20 :=
+  ⟨CastleSafe.of_check (by decide +kernel), by decide +kernel⟩
+
+/-! ### 4. perft counts paths -/
+
+/-- `perft` at depth `d` returns the number of legal move paths of length `d` (`pathsM`), provided
+    the side conditions of `countMoves_eq_length` hold on the positions where perft calls
+    `countMoves`, i.e. those reached by exactly `d - 1` generated legal moves
+    (`LeavesOk kt CountOk (d - 1) p`; nothing is needed for `d = 0`). -/
+theorem perft_eq_paths {kt : Killers} {cap d idx : Nat} {p : Position} {n n' : Nat}
+    (h : ∀ k, d = k + 1 → LeavesOk kt CountOk k p)
+    (h1 : perft kt cap d idx p = .ok n) (h2 : pathsM kt d p = .ok n') : n = n' := by
+  cases d with
+  | zero =>
+    simp only [perft, pathsM, pure_eq_ok, Except.ok.injEq] at h1 h2
+    omega
+  | succ k => exact perft_paths k idx p n n' (h k rfl) h1 h2
+
+/-- the same from an invariant `G` that is closed under generated legal successors and implies the
+    side conditions -/
+theorem perft_eq_paths_of_invariant {kt : Killers} {cap d idx : Nat} {p : Position} {n n' : Nat}
+    (G : Position → Prop) (hG : ∀ p, G p → CountOk p) (hstep : ClosedUnderMoves kt G) (hp : G p)
+    (h1 : perft kt cap d idx p = .ok n) (h2 : pathsM kt d p = .ok n') : n = n' :=
+  perft_eq_paths (fun k _ => leavesOk_of_closed hG hstep k p hp) h1 h2
+
+set_option maxRecDepth 100000 in
+/-- depth 1 on the witness: the hypothesis is `CountOk c06Witness`, both sides run and give 35.
+    (Depth 2 evaluates to 1283 = 1283 with `#eval`, but kernel evaluation of depth 2 takes minutes
+    and is not part of the build.) -/
+example : (∀ k, 1 = k + 1 → LeavesOk Killers.empty CountOk k c06Witness) ∧
+    okVal (perft Killers.empty 200 1 0 c06Witness) = some 35 ∧
+    okVal (pathsM Killers.empty 1 c06Witness) = some 35 := by
+  refine ⟨?_, by decide +kernel, by decide +kernel⟩
+  intro k hk
+  have : k = 0 := by omega
+  subst this
+  exact c06Witness_countOk
+
+/-- `perftTactical` at depth `d` (depths 0 and 1 both mean "count the tactical moves here") returns
+    the number of paths of `d - 1` legal moves followed by one tactical legal move, the leaves
+    enumerated by the tactical generator (`tpathsM`). -/
+theorem perftTactical_eq_paths {kt : Killers} {cap d idx : Nat} {p : Position} {n n' : Nat}
+    (h : LeavesOk kt TCountOk (d - 1) p)
+    (h1 : perftTactical kt cap d idx p = .ok n) (h2 : tpathsM kt (d - 1) p = .ok n') : n = n' := by
+  cases d with
+  | zero =>
+    rw [perftTactical_zero] at h1
+    exact perftTactical_paths 0 idx p n n' h h1 h2
+  | succ k => exact perftTactical_paths k idx p n n' h h1 h2
+
+/-- ... and the tactical generator's leaves are the tactical-flagged moves of the full generator
+    (`tpathsF`), by `tactical_is_filter`. -/
+theorem tpaths_eq_filter {kt : Killers} {d : Nat} {p : Position} {n n' : Nat}
+    (h : LeavesOk kt CellsOk d p) (h1 : tpathsM kt d p = .ok n) (h2 : tpathsF kt d p = .ok n') : n = n' :=
+  tpaths_filter d p n n' h h1 h2
+
+theorem perftTactical_eq_paths_of_invariant {kt : Killers} {cap d idx : Nat} {p : Position} {n n' n'' : Nat}
+    (G : Position → Prop) (hG : ∀ p, G p → TCountOk p ∧ CellsOk p) (hstep : ClosedUnderMoves kt G) (hp : G p)
+    (h1 : perftTactical kt cap d idx p = .ok n) (h2 : tpathsM kt (d - 1) p = .ok n')
+    (h3 : tpathsF kt (d - 1) p = .ok n'') : n = n' ∧ n' = n'' :=
+  ⟨perftTactical_eq_paths (leavesOk_of_closed (fun p hp => (hG p hp).1) hstep _ p hp) h1 h2,
+   tpaths_eq_filter (leavesOk_of_closed (fun p hp => (hG p hp).2) hstep _ p hp) h2 h3⟩
+
+set_option maxRecDepth 100000 in
+example : LeavesOk Killers.empty TCountOk (1 - 1) c06Witness ∧ LeavesOk Killers.empty CellsOk 0 c06Witness ∧
+    okVal (perftTactical Killers.empty 200 1 0 c06Witness) = some 4 ∧
+    okVal (tpathsM Killers.empty 0 c06Witness) = some 4 ∧
+    okVal (tpathsF Killers.empty 0 c06Witness) = some 4 :=
+  ⟨c06Witness_tcountOk, by show CellsOk c06Witness; decide +kernel, by decide +kernel, by decide +kernel,
+   by decide +kernel⟩
 
 end Magog.Props.C06
